@@ -175,7 +175,7 @@ func C10(tier string) int {
 		set  bool
 		ok   bool
 	}{{"absent", nil, false, false}, {"null", nil, true, false}, {"empty-string", "", true, false}, {"number", 5, true, false},
-		{"object", M{"a": 1}, true, false}, {"array", L{RAct}, true, false}, {"relative", "a/1", true, false}, {"abs-path", "/a/1", true, false},
+		{"object", M{"a": 1}, true, false}, {"array", L{RAct}, true, false}, {"relative", "a/1", true, false}, {"abs-path", "/a/1", true, false}, {"network-path", "//r1.example/a/1", true, false}, {"query-only", "?a=1", true, false}, {"fragment-only", "#a1", true, false},
 		{"absolute", RAct, true, true}}
 	for _, idv := range ids {
 		d := Doc("Like", "", "actor", Carol, "object", Note1)
